@@ -235,6 +235,7 @@ func cmdCheck(repo, verifDir, id, tier string) int {
 	nObl := 0
 	var covers, coverOK int
 	var samples []map[string]interface{}
+	var knownObls []string
 	for _, k := range order {
 		g := groups[k]
 		if g.Insts[0].Kind == "cover" {
@@ -268,6 +269,8 @@ func cmdCheck(repo, verifDir, id, tier string) int {
 		}
 		if kf >= 0 {
 			knownHits[kf] = true
+			nObl-- // reported separately (known finding), not part of the proved set
+			knownObls = append(knownObls, k)
 			continue
 		}
 		if haveBase && !baseSet[k] && chash != be.ContractHash {
@@ -300,23 +303,26 @@ func cmdCheck(repo, verifDir, id, tier string) int {
 			trusted = append(trusted, t)
 		}
 	}
-	for i, name := range e.d.axiomName {
-		if strings.HasPrefix(name, "axiom.") {
-			used := false
-			for _, tr := range strings.Split(e.d.axiomTrig[i], "|") {
-				if _, ok := e.d.funs[tr]; ok {
-					used = true
+	usedAx := map[string]bool{}
+	seenD := map[*Decls]bool{}
+	for _, o := range all {
+		d := o.D
+		if d == nil || seenD[d] {
+			continue
+		}
+		seenD[d] = true
+		for i, name := range d.axiomName {
+			if strings.HasPrefix(name, "axiom.") {
+				for _, tr := range strings.Split(d.axiomTrig[i], "|") {
+					if _, ok := d.funs[tr]; ok {
+						usedAx[strings.TrimPrefix(name, "axiom.")] = true
+					}
 				}
-			}
-			if used {
-				trusted = append(trusted, "axiom (lemma library, assumed): "+strings.TrimPrefix(name, "axiom."))
 			}
 		}
 	}
-	for k, fc := range e.contracts {
-		if fc.Assumed && fc.Used {
-			trusted = append(trusted, "assumed contract on dependency: "+k)
-		}
+	for a := range usedAx {
+		trusted = append(trusted, "axiom (lemma library, assumed): "+a)
 	}
 	trusted = append(trusted, "VC generator gsv itself (symbolic execution of the typed AST; constructs dropped: logging, tracing, mutex calls, time)",
 		"SMT solvers z3 4.8.12 / z3 5.1.0 / cvc5 1.0 (an `unsat` answer from any one discharges an obligation)",
@@ -344,6 +350,7 @@ func cmdCheck(repo, verifDir, id, tier string) int {
 		"contract_hash":            chash,
 		"out_of_reach":             fnErrs,
 		"known_findings_hit":       len(knownHits),
+		"known_finding_obligations": knownObls,
 		"rule":                     "one obligation = one named proof goal (precondition at a call site, postcondition conjunct, loop-invariant conjunct at entry/back-edge, frame condition, no-panic / no-overflow check) of a function under contract; it is discharged when every path instance is unsat",
 	}
 	if nObl == 0 {
